@@ -15,4 +15,5 @@ for sid in sorted(os.listdir(S)):
             res.append(f"caught by `{k}` [{props}: {kinds}]")
         else:
             res.append(f"**missed by `{k}`** (exit {v['exit']})")
-    print(f"| {sid} | {m['property']} | {m['needs_to_manifest']} | {'; '.join(res) or 'not run yet'} |")
+    first = f" - **{m['first_run']}**" if m.get("first_run") else ""
+    print(f"| {sid} | {m['property']} | {m['needs_to_manifest']} | {'; '.join(res) or 'not run yet'}{first} |")
